@@ -367,3 +367,32 @@ def variant_table(e, render=None):
         yes, no = (e["e"], e["t"]) if neg else (e["t"], e["e"])
         return scrut, {last_seg(pat_head(a)): render(yes) for a in pat_alts(pat)}, render(no)
     return None
+
+
+def const_str(syn, f, node, _depth=0):
+    """The string a node denotes when it is a string literal, `<that>.to_string()` / `.into()` / `.to_owned()` / `String::from(..)`, or the name of a
+    constant (module-level `const`, or a `const` item inside the function `f`) initialised with one.  None otherwise."""
+    if node is None or _depth > 4:
+        return None
+    k = node.get("k")
+    if k == "lit" and node.get("t") == "str":
+        return lit_val(node)
+    if k in ("ref", "paren"):
+        return const_str(syn, f, node["e"], _depth + 1)
+    if k == "mcall" and node["m"] in ("to_string", "into", "to_owned", "as_str", "clone") and not node["a"]:
+        return const_str(syn, f, node["r"], _depth + 1)
+    if k == "call" and show(node["f"]) in ("String::from", "str::to_string", "ToString::to_string", "ToOwned::to_owned") and len(node["a"]) == 1:
+        return const_str(syn, f, node["a"][0], _depth + 1)
+    if k == "path":
+        name = last_seg(node["p"])
+        if f is not None and "body" in f:
+            for n in walk(f["body"]):
+                if n.get("k") == "item_const" and n.get("name") == name and n.get("init") is not None:
+                    return const_str(syn, f, n["init"], _depth + 1)
+        cands = [c for c in getattr(syn, "statics", []) if c.get("kind") == "const" and c["path"].split("::")[-1] == name and c.get("init") is not None]
+        if f is not None:
+            same = [c for c in cands if c.get("file") == f.get("file")]
+            cands = same or cands
+        if len(cands) == 1:
+            return const_str(syn, f, cands[0]["init"], _depth + 1)
+    return None
